@@ -13,6 +13,7 @@ general step with the generated tableau for EVERY right-hand side `f`.
 That the order conditions imply the order of accuracy (Butcher) is cited, not formalised.
 -/
 import KawinV.Model.Solver
+import KawinV.Model.Flatten
 import KawinV.Gen.C06Tableau
 import Mathlib.Tactic.Ring
 import Mathlib.Tactic.NormNum
@@ -351,6 +352,210 @@ theorem moved_clock_not_exact (c x0 t0 cur t' : α) (hc : c ≠ 0) (ht : t' ≠ 
   · exact ht (by linarith)
 
 end through
+
+/-! ### who owns the stage derivatives (right-hand sides that reuse one work array)
+
+`rk4IterBuf shared` (KawinV.Solver, Part 4) is RK4Iterator with the reads of k1..k4 resolved for a
+right-hand side that evaluates into ONE work array and returns it on every call.  `shared = false`:
+the flatten function between model and iterator allocates (np.hstack in GenericModel.flattenX,
+np.concatenate in Coupler.flattenX — `Flatten.flattenOwnership = fresh`, measured on the real
+functions on every run); then the step is the Runge-Kutta step and everything above applies.
+`shared = true` (identity flatten of a bare DESolver, a reshape view, or a "fast path" that returns
+`X[0]`): k1 is read after call 2 and has the value of k2 — a different, first-order method. -/
+
+section buf
+
+/-- with a copying flatten the work-array reuse is invisible: same result, same calls, for every
+right-hand side, state type and vector operations -/
+theorem rk4IterBuf_fresh {V : Type} (o : VecOps α V) (f : α → V → V) (dt t : α) (x : V) :
+    rk4IterBuf false o f dt t x = rk4Iter o f dt t x := rfl
+
+/-- the Euler iterator consumes its single derivative before any other call: reuse never shows -/
+theorem eulerIterBuf_any {V : Type} (sh : Bool) (o : VecOps α V) (f : α → V → V) (dt t : α) (x : V) :
+    eulerIterBuf sh o f dt t x = eulerIter o f dt t x := rfl
+
+/-- **through GenericModel.flattenX** (np.hstack — also for a state list that holds a single 1-D
+array) **and Coupler.flattenX** (np.concatenate) the iterator owns its stage derivatives -/
+theorem rk4_default_flatten {β V : Type} (X : List (Flatten.Item β)) (Xs : List (List (Flatten.Item β)))
+    (o : VecOps α V) (f : α → V → V) (dt t : α) (x : V) :
+    rk4IterBuf (Flatten.flattenOwnership X).isShared o f dt t x = rk4Iter o f dt t x ∧
+    rk4IterBuf (Flatten.flattenCOwnership Xs).isShared o f dt t x = rk4Iter o f dt t x := ⟨rfl, rfl⟩
+
+/-- hence: a model that reuses its work array, solved through the default flatten, is stepped with
+the generated tableau (all order conditions) -/
+theorem rk4IterBuf_fresh_eq_rkStep (f : α → α → α) (dt t x : α) :
+    (rk4IterBuf false scalarOps f dt t x).xnew = rkStep rk4T f t x dt := by
+  rw [rk4IterBuf_fresh, rk4Iter_eq_rkStep]
+
+/-- the stage times do not depend on who owns the arrays -/
+theorem rk4IterBuf_call_times {V : Type} (sh : Bool) (o : VecOps α V) (f : α → V → V) (dt t : α) (x : V) :
+    (rk4IterBuf sh o f dt t x).calls.map Prod.fst = [t, t + dt / 2, t + dt / 2, t + dt] := rfl
+
+theorem rk4IterBuf_input_untouched {V : Type} (sh : Bool) (o : VecOps α V) (f : α → V → V) (dt t : α) (x : V) :
+    (rk4IterBuf sh o f dt t x).xold = x := rfl
+
+/-- **witness of the broken variant**: with a shared work array one step on y' = λy multiplies by
+1 + z + (7/12) z² + z³/6 + z⁴/24 (z = λ·dt) instead of the Taylor polynomial of exp -/
+theorem rk4IterBuf_shared_linear (lam t y dt : α) :
+    (rk4IterBuf true scalarOps (fun _ u => lam * u) dt t y).xnew
+      = (1 + lam * dt + 7 / 12 * (lam * dt) ^ 2 + (lam * dt) ^ 3 / 6 + (lam * dt) ^ 4 / 24) * y := by
+  simp only [rk4IterBuf, readK, updateX, scalarOps, if_true]
+  ring
+
+/-- the defect of one step against the Runge-Kutta step is exactly z²·y/12: second order locally,
+i.e. the method has dropped to FIRST order -/
+theorem rk4IterBuf_shared_defect (lam t y dt : α) :
+    (rk4IterBuf true scalarOps (fun _ u => lam * u) dt t y).xnew
+      - (rk4IterBuf false scalarOps (fun _ u => lam * u) dt t y).xnew = (lam * dt) ^ 2 / 12 * y := by
+  rw [rk4IterBuf_shared_linear, rk4IterBuf_fresh, rk4Iter_eq_rkStep, rk4_linear_test]; ring
+
+theorem rk4IterBuf_shared_ne (lam t y dt : α) (hz : lam * dt ≠ 0) (hy : y ≠ 0) :
+    (rk4IterBuf true scalarOps (fun _ u => lam * u) dt t y).xnew
+      ≠ (rk4IterBuf false scalarOps (fun _ u => lam * u) dt t y).xnew := by
+  intro h
+  have := rk4IterBuf_shared_defect lam t y dt
+  rw [h, sub_self] at this
+  have h2 : (lam * dt) ^ 2 * y = 0 := by linarith
+  rcases mul_eq_zero.mp h2 with h3 | h3
+  · exact hz (pow_eq_zero_iff (by norm_num) |>.mp h3)
+  · exact hy h3
+
+/-- on a quadrature y' = g(t) the shared array loses the value at the start of the step:
+weights (0, 5/6, 1/6) on g(t), g(t+dt/2), g(t+dt) instead of Simpson's (1/6, 4/6, 1/6) -/
+theorem rk4IterBuf_shared_quadrature (g : α → α) (t y dt : α) :
+    (rk4IterBuf true scalarOps (fun s _ => g s) dt t y).xnew
+      = y + dt * (5 * g (t + dt / 2) + g (t + dt)) / 6 := by
+  simp only [rk4IterBuf, readK, updateX, scalarOps, if_true]
+  ring
+
+/-- … so already y' = 2t, y(0) = 1, one step of 1 gives 13/6·… ≠ 2: not exact on polynomials of degree 1 -/
+theorem rk4IterBuf_shared_not_exact_deg1 :
+    (rk4IterBuf true scalarOps (fun s _ => 2 * s) (1 : α) 0 1).xnew ≠ 2 := by
+  rw [rk4IterBuf_shared_quadrature (fun s => 2 * s)]; norm_num
+
+end buf
+
+/-! ### number formats: the clock is the sum of the steps that advanced the state
+
+`stepXR rnd` / `solveXR rnd` (KawinV.Solver, Part 5): the model answers `getDt` in a number format
+with rounding function `rnd`; the solver converts the clamped value to a double once
+(`float(dt)`, Solver.py 139) and uses that one number for the clock, the stage times and the state.
+All statements hold for EVERY `rnd`. -/
+
+section fmt
+variable (rnd : α → α) (tf dtmin : α) (propose : List α → Dt α) (stopAt : List α → Bool)
+
+/-- **one dt**: in one pass with the Runge-Kutta iterator the clock advances by d, the state is
+the iterator's result for that same d, the right-hand side is called at t, t+d/2, t+d/2, t+d for
+that same d, and d is what is recorded as the accepted step — d the clamped rounded proposal -/
+theorem clock_state_same_dt {V : Type} (o : VecOps α V) (f : α → V → V) (s : St α × V) :
+    let d := stepDtR rnd tf dtmin propose s.1
+    let s' := stepXR rnd tf dtmin propose stopAt (fun dt t x => (rk4Iter o f dt t x).xnew) s
+    s'.1.cur = s.1.cur + d ∧ s'.2 = (rk4Iter o f d s.1.cur s.2).xnew ∧
+      (rk4Iter o f d s.1.cur s.2).calls.map Prod.fst = [s.1.cur, s.1.cur + d / 2, s.1.cur + d / 2, s.1.cur + d] ∧
+      s'.1.steps = (s.1.cur, d) :: s.1.steps := ⟨rfl, rfl, rfl, rfl⟩
+
+theorem clock_state_same_dt_euler {V : Type} (o : VecOps α V) (f : α → V → V) (s : St α × V) :
+    let d := stepDtR rnd tf dtmin propose s.1
+    let s' := stepXR rnd tf dtmin propose stopAt (fun dt t x => (eulerIter o f dt t x).xnew) s
+    s'.1.cur = s.1.cur + d ∧ s'.2 = (eulerIter o f d s.1.cur s.2).xnew ∧
+      (eulerIter o f d s.1.cur s.2).calls.map Prod.fst = [s.1.cur] ∧
+      s'.1.steps = (s.1.cur, d) :: s.1.steps := ⟨rfl, rfl, rfl, rfl⟩
+
+/-- loop invariant: the clock is the start time plus the sum of the accepted steps -/
+theorem runX_clock_sum {V : Type} (t0 : α) (iter : α → α → V → V) (n : Nat) (s : St α × V)
+    (h : s.1.cur = t0 + s.1.dts.sum) :
+    (runX tf dtmin propose stopAt iter n s).1.cur = t0 + (runX tf dtmin propose stopAt iter n s).1.dts.sum := by
+  induction n generalizing s with
+  | zero => exact h
+  | succ n ih =>
+    unfold runX
+    split_ifs with hc
+    · apply ih
+      show s.1.cur + stepDt tf dtmin propose s.1 = t0 + (stepDt tf dtmin propose s.1 :: s.1.dts).sum
+      rw [List.sum_cons, h]; ring
+    · exact h
+
+/-- **the clock is the sum of the accepted steps**, for every number format of the proposal,
+every proposal function, step fractions, stop schedule and iterator -/
+theorem solveXR_clock_sum {V : Type} (t0 minFrac maxFrac : α) (iter : α → α → V → V) (x0 : V) (fuel : Nat) :
+    (solveXR rnd t0 tf minFrac maxFrac propose stopAt iter x0 fuel).1.cur
+      = t0 + (solveXR rnd t0 tf minFrac maxFrac propose stopAt iter x0 fuel).1.dts.sum := by
+  unfold solveXR solveX
+  apply runX_clock_sum
+  simp [initSt, St.dts]
+
+/-- a state component with y' = 1 carried by the Euler iterator is a second clock driven by the
+dt of the state update: it agrees with the solver's clock after any run, for every format -/
+theorem solveXR_state_clock (t0 minFrac maxFrac x0 : α) (fuel : Nat) :
+    (solveXR rnd t0 tf minFrac maxFrac propose stopAt
+        (fun dt t x => (eulerIter scalarOps (fun _ _ => (1 : α)) dt t x).xnew) x0 fuel).2 - x0
+      = (solveXR rnd t0 tf minFrac maxFrac propose stopAt
+        (fun dt t x => (eulerIter scalarOps (fun _ _ => (1 : α)) dt t x).xnew) x0 fuel).1.cur - t0 := by
+  unfold solveXR
+  rw [solve_euler_exact_const tf (proposeR rnd propose) stopAt t0 minFrac maxFrac 1 x0 fuel]; ring
+
+/-- exactness through the solver for every number format of the proposal -/
+theorem solveXR_rk4_exact_cubic (t0 minFrac maxFrac a0 a1 a2 a3 x0 : α) (fuel : Nat) :
+    let r := solveXR rnd t0 tf minFrac maxFrac propose stopAt
+        (fun dt t x => (rk4Iter scalarOps (fun s _ => a0 + a1 * s + a2 * s ^ 2 + a3 * s ^ 3) dt t x).xnew) x0 fuel
+    r.2 = x0 + (a0 * (r.1.cur - t0) + a1 * (r.1.cur ^ 2 - t0 ^ 2) / 2 + a2 * (r.1.cur ^ 3 - t0 ^ 3) / 3
+                + a3 * (r.1.cur ^ 4 - t0 ^ 4) / 4) :=
+  solve_rk4_exact_cubic tf (proposeR rnd propose) stopAt t0 minFrac maxFrac a0 a1 a2 a3 x0 fuel
+
+/-- the identity format is the plain loop -/
+theorem solveXR_id {V : Type} (t0 minFrac maxFrac : α) (iter : α → α → V → V) (x0 : V) (fuel : Nat) :
+    solveXR id t0 tf minFrac maxFrac propose stopAt iter x0 fuel
+      = solveX t0 tf minFrac maxFrac propose stopAt iter x0 fuel := by
+  have : proposeR id propose = propose := by
+    funext h; unfold proposeR; cases propose h <;> rfl
+  unfold solveXR; rw [this]
+
+/-- the clock kept in a coarser format is the code's loop as long as the format represents every
+value the clock takes (the excluding hypothesis, per pass) -/
+theorem stepXC_eq_stepX {V : Type} (rndc : α → α) (iter : α → α → V → V) (s : St α × V)
+    (h : rndc (s.1.cur + stepDt tf dtmin propose s.1) = s.1.cur + stepDt tf dtmin propose s.1) :
+    stepXC rndc tf dtmin propose stopAt iter s = stepX tf dtmin propose stopAt iter s := by
+  unfold stepXC stepX
+  have hc : (step tf dtmin propose stopAt s.1).cur = s.1.cur + stepDt tf dtmin propose s.1 := rfl
+  simp only [hc, h]
+  rfl
+
+end fmt
+
+/-- **witness of the broken variant** (ℚ, the coarse format = multiples of 1/4, rounded down): t0 = 0,
+tf = 1, proposals 1/3, y' = 1 with Euler.  The clock reads 1/4, 1/2, 3/4, 1 while the state was
+advanced by 1/3, 1/3, 1/3, 1/4: at the end the clock says 1, the sum of the accepted steps and the
+state say 5/4 — the state is NOT exact at the reported time, and the clock is NOT the sum of the steps. -/
+def rndQuarter (q : ℚ) : ℚ := ((q * 4).floor : ℚ) / 4
+
+theorem coarse_clock_drifts :
+    let r := solveXC rndQuarter (0 : ℚ) 1 (1/100) 1 (fun _ => .fin (1/3)) (fun _ => false)
+      (fun dt t x => (eulerIter scalarOps (fun _ _ => (1 : ℚ)) dt t x).xnew) 0 10
+    r.1.cur = 1 ∧ r.1.dts.sum = 5/4 ∧ r.2 = 5/4 ∧ r.2 - 0 ≠ r.1.cur - 0 := by
+  decide +kernel
+
+/-- the same run with the clock in full precision (the code): clock = sum of the steps = state = 1 -/
+example :
+    let r := solveXR id (0 : ℚ) 1 (1/100) 1 (fun _ => .fin (1/3)) (fun _ => false)
+      (fun dt t x => (eulerIter scalarOps (fun _ _ => (1 : ℚ)) dt t x).xnew) 0 10
+    r.1.cur = 1 ∧ r.1.dts.sum = 1 ∧ r.2 = 1 := by
+  decide +kernel
+
+/-- … and with the PROPOSAL in the coarse format (what a float32 `getDt` is): steps 1/4, clock = state -/
+example :
+    let r := solveXR rndQuarter (0 : ℚ) 1 (1/100) 1 (fun _ => .fin (1/3)) (fun _ => false)
+      (fun dt t x => (eulerIter scalarOps (fun _ _ => (1 : ℚ)) dt t x).xnew) 0 10
+    r.1.cur = 1 ∧ r.1.dts = [1/4, 1/4, 1/4, 1/4] ∧ r.2 = 1 := by
+  decide +kernel
+
+/-- non-vacuity of the hypothesis of `stepXC_eq_stepX`: the quarter format represents 1/4 + 1/4 -/
+example : rndQuarter ((1/4 : ℚ) + 1/4) = 1/4 + 1/4 := by decide +kernel
+
+/-- shared work array on concrete numbers: y' = y, y = 1, dt = 1 gives 11/4 (Runge-Kutta: 65/24) -/
+example : (rk4IterBuf true scalarOps (fun _ u => (1 : ℚ) * u) 1 0 1).xnew = 11 / 4 ∧
+    (rk4IterBuf false scalarOps (fun _ u => (1 : ℚ) * u) 1 0 1).xnew = 65 / 24 := by
+  rw [rk4IterBuf_shared_linear, rk4IterBuf_fresh, rk4Iter_eq_rkStep, rk4_linear_test]; norm_num
 
 /-! ### non-vacuity / concrete values -/
 
